@@ -196,7 +196,7 @@ def lexDiags (input : List Char) : List LDiag := lexFrom .code 0 input
 def lineAt (input : List Char) (off : Nat) : Nat := ((input.take off).filter (· = '\n')).length
 
 /-- the diagnostics as `Diag`s reported through `ERRORreport_with_line` -/
-def toDiag (file : List Char) (input : List Char) (d : LDiag) : Diag.Diag :=
-  ⟨d.code, file, lineAt input d.off, d.arg.toList, .line⟩
+def toDiag (file : List Char) (input : List Char) (d : LDiag) (lineBase : Nat := 0) : Diag.Diag :=
+  ⟨d.code, file, lineBase + lineAt input d.off, d.arg.toList, .line⟩
 
 end StepModel.Express.Lex
